@@ -3,6 +3,32 @@ import Lemmas.GoLoop
 import Lemmas.GoReduce
 import Properties.C03Tie
 import Properties.C03
+/-!
+# C03 (and C16, "only on selected branches"), tie A by translation: `reduceAny`, `reduce`,
+# `parseTemplatedElements` and the pipeline of `Builder.FromBytes`
+
+`Generated/GoGConfigReduce.lean` is rewritten from /repo's gconfig/builder.go and
+gconfig/yaml_templates.go by `harness/cmd/go2lean -spec gconfigreduce` on every run.  This file proves,
+for ALL inputs, that the translated functions compute exactly what the hand-written model computes:
+
+* `go_reduce_eq` - one call of `reduce(in, dimensions, i)` = the verdict of the model's `classify1` on
+  dimension `i` (through the translated `keySet` and the translated `set.Set.Remove`) and the model's
+  `reduceAny` of the branch it follows;
+* `go_reduceAny_eq` - `reduceAny(y, dimensions, 0)` = `GConfig.reduceAny dims y` for every document whose
+  maps have distinct keys (true of every Go map), every list of dimensions none of which parses the
+  empty string (`reduce` looks up `in[""]` when no key selects; enum value names are identifiers),
+  every fuel ≥ `need y`; error ⇔ the model's `none`; no panic;
+* `go_parseTemplated_eq` - `parseTemplatedElements` = the pointwise lift `tmplY` of the templates;
+* `go_fromBytes_eq` - the translated body of `FromBytes` = `GConfig.fromBytes` then the templates;
+* `go_fromBytes_spec`, `go_reduceAny_spec` - on well-formed documents that is the specification
+  `resolve` written from the property text (via `reduce_eq_resolve` of Properties/C03.lean);
+* `go_fromBytes_only_selected` - the templates only ever see the resolved document: what they would
+  do on branches the dimensions do not select cannot change the outcome of loading (C16).
+
+Any edit of those Go functions that changes what they compute - whatever input it would take to
+show - changes the generated definitions and breaks one of these kernel-checked obligations; an
+edit that leaves the translated fragment makes the translator fail.
+-/
 set_option linter.unusedSimpArgs false
 set_option linter.unusedVariables false
 namespace C03Reduce
@@ -834,6 +860,10 @@ theorem go_fromBytes_only_selected (env env' : Env) (dims : List Dim) (hE : ∀ 
     cases r with
     | map m => simp only [tmplKVs_congr _ _ m (hsame m hr)]
     | _ => rfl
+
+/-- regenerated fact: the package variable `templates` holds exactly the env-variable template
+(C16 models that one; a second template would have to be modelled too) -/
+theorem templates_is_envVar : templatesDecl = ["&envVarTmpl{}"] := rfl
 
 /-- non-vacuity: a two-dimension document (a switch of the second dimension around a switch of the
 first) is well-formed, no dimension parses the empty string, fuel 7 is enough, and the translated
